@@ -381,6 +381,7 @@ func first(a, _ []byte) []byte { return a }
 //@     invariant (*ref).pointer == n48 && (*ref).tag == 2
 //@     invariant forall(x, 0, 256, n256.children[x].pointer == ite(x == b, nil, old(n256.children[x].pointer)) && n256.children[x].tag == old(n256.children[x].tag))
 //@     invariant n256.prefixLen == old(n256.prefixLen) && forall(j, 0, 10, n256.prefix[j] == old(n256.prefix[j]))
+//@     invariant n256.childrenLen == cntP(n256.children, 256) % 256 && n48.childrenLen == n256.childrenLen && n48.prefixLen == n256.prefixLen
 //@     invariant cntP(n48.children, 48) == pos && cntNZ(n48.keys, 256) == pos
 //@     invariant forall(j, 0, 48, implies(j >= pos, n48.children[j].pointer == nil))
 //@     invariant forall(x, 0, 256, n48.keys[x] == ite(x < i && n256.children[x].pointer != nil, cntP(n256.children, x) + 1, 0))
